@@ -4,6 +4,7 @@ import ast
 from ..core import astutil as A
 from ..core import bashlex as B
 from ..core import cfg as CFG
+from ..core import match as M
 from ..core.model import dotted
 
 META = {
@@ -18,6 +19,16 @@ EFFECTS = {"os.makedirs", "os.unlink", "os.symlink", "os.readlink", "os.link", "
 CATCHES = {"OSError", "EnvironmentError", "IOError", "Exception"}
 
 
+def _raises_cmd_error(r):
+    """`raise IpcCommandError(...)` (possibly `from e`); the message is not looked at"""
+    return (A.raised_name(r) or "").split(".")[-1] == "IpcCommandError"
+
+
+def _inert(st):
+    """a statement that cannot end or redirect the function: no raise/return/break/continue inside"""
+    return not any(isinstance(n, (ast.Raise, ast.Return, ast.Break, ast.Continue)) for n in ast.walk(st))
+
+
 def protected(call, fn_node):
     """Is `call` in the *body* of a try (inside fn) with an OSError-ish handler that raises IpcCommandError?"""
     child = call
@@ -29,7 +40,7 @@ def protected(call, fn_node):
             if in_body:
                 for h in p.handlers:
                     types = [A.unparse(x) for x in (h.type.elts if isinstance(h.type, ast.Tuple) else [h.type])] if h.type is not None else ["Exception"]
-                    if set(types) & CATCHES and any(isinstance(r, ast.Raise) and r.exc is not None and "IpcCommandError" in A.unparse(r.exc) for r in A.walk(h)):
+                    if set(types) & CATCHES and any(isinstance(r, ast.Raise) and _raises_cmd_error(r) for r in A.walk(h)):
                         return True
         child = p
     return False
@@ -55,10 +66,11 @@ def run(ctx):
     reads = [c for c in A.calls(call.node) if A.unparse(c.func) == "self.read"]
     ctx.check("R1", call, len(reads) == 5, f"python-reads:{len(reads)}", "Python reads exactly the 5 fields that follow the command",
               f"IpcCommand.__call__ reads {len(reads)} fields but __ebd_ipc_cmd sends 5 after the command: the channel is off by {len(reads) - 5} line(s)", node=call.node)
-    t = A.unparse(call.node)
-    order = [t.find("nonfatal = self.read() == 'true'"), t.find("self.cwd = self.read()"), t.find("self.phase = self.read()"), t.find("options = shlex.split(self.read())"), t.find("args = self.read().strip('\\x00')")]
-    ctx.check("R1", call, -1 not in order and order == sorted(order), "python-field-order", "in the same order: nonfatal, cwd, phase, options, args")
-    ctx.check("R1", call, "args.split('\\x00') if args else []" in t, "args-nul-split", "args are NUL separated (as __ebd_write_array prints them)")
+    # the locals are bound by their ROLE (which field they receive); later patterns reuse the bindings
+    frame = M.one(call.node, "$nonfatal = self.read() == 'true'\nself.cwd = self.read()\nself.phase = self.read()\n$options = shlex.split(self.read())\n$args = self.read().strip('\\x00')")
+    ctx.check("R1", call, frame is not None, "python-field-order", "in the same order: nonfatal, cwd, phase, options, args")
+    E = dict(frame.env) if frame else {}
+    ctx.check("R1", call, M.has(call.node, "$args = self.read().strip('\\x00')\n$args = $args.split('\\x00') if $args else []", E), "args-nul-split", "args are NUL separated (as __ebd_write_array prints them)")
     wa = fns.get("__ebd_write_array")
     ctx.check("R1", LIB + ":__ebd_write_array", wa is not None and 'printf "%s\\0" "$@"' in wa.body, "bash-array-nul", "__ebd_write_array prints each arg followed by NUL")
     ctx.floor("R1", 6)
@@ -66,21 +78,31 @@ def run(ctx):
     # ---- R2 exactly one reply ------------------------------------------------------------------------------
     writes = [c for c in A.calls(call.node) if A.unparse(c.func) in ("self.write", "self.ebd.write")]
     ctx.check("R2", call, len(writes) == 1, f"one-write-site:{len(writes)}", "__call__ has one reply site")
+    # `ret` by role: what the command's run() produced
+    res = M.one(call.node, "$ret = self.run($_)", E)
+    E = dict(res.env) if res else E
     if writes:
         st = A.stmt_of(writes[0])
-        ctx.check("R2", call, st in call.node.body and st is call.node.body[-1], "reply-on-every-normal-path", "the reply is the last top-level statement: every normal completion sends exactly one",
-                  "the reply in IpcCommand.__call__ is conditional / inside a loop: some completions send no reply or several", node=st)
-        ctx.check("R2", call, A.unparse(writes[0].args[0]) == "self._encode_ret(ret)", "reply-encoded", "what is sent is _encode_ret(ret)")
+        g = CFG.cfg_of(call.node)
+        wn = g.node_of(st)
+        skipped = g.find_path([g.entry], lambda n: n is g.exit, avoid=lambda n: n is wn)  # a normal completion that sends nothing
+        again = g.find_path([wn], lambda n: n is wn)  # the reply site can run twice
+        after = g.find_path([wn], lambda n: n is g.raise_exit or n.kind in ("raise_stmt", "except"))  # something after the reply can still fail the request
+        ctx.check("R2", call, wn is not None and skipped is None and again is None and after is None, "reply-on-every-normal-path", "the reply closes every normal completion: each one sends exactly one, and nothing that can fail follows it",
+                  "the reply in IpcCommand.__call__ is conditional / inside a loop: some completions send no reply or several", node=st, witness=g.fmt_path(skipped or again or after) if (skipped or again or after) else None)
+        ctx.check("R2", call, res is not None and M.pat("self.write(self._encode_ret($ret))").matches(writes[0], E) is not None, "reply-encoded", "what is sent is _encode_ret(ret)")
     for r in A.raises(call.node):
         e = A.unparse(r.exc) if r.exc is not None else "<re-raise>"
         ok = e.startswith(("IpcCommandError(", "IpcInternalError(")) or (r.exc is None and any(isinstance(p, ast.ExceptHandler) and p.type is not None and A.unparse(p.type) == "KeyboardInterrupt" for p in A.parents(r)))
         ctx.check("R2", call, ok, f"exceptional-exit:{e[:30]}", f"exceptional exit `{e[:50]}` is an IpcError (answered by run_generic_phase) or a user interrupt")
     hs = [h for n in A.body_walk(call.node) if isinstance(n, ast.Try) for h in n.handlers]
     cmd_h = [h for h in hs if h.type is not None and A.unparse(h.type) == "IpcCommandError"]
-    ok = len(cmd_h) == 1 and "if nonfatal:\n" in A.unparse(cmd_h[0]) and "ret = (e.code, e.msg)" in A.unparse(cmd_h[0]) and "raise IpcCommandError(msg=e.msg, code=e.code, name=self.name)" in A.unparse(cmd_h[0])
+    RAISE = "raise IpcCommandError(msg=$e.msg, code=$e.code, name=self.name)"
+    ok = len(cmd_h) == 1 and (M.has(call.node, "try:\n    ...\nexcept IpcCommandError as $e:\n    if $nonfatal:\n        $ret = ($e.code, $e.msg)\n    else:\n        " + RAISE, E)
+                              or M.has(call.node, "try:\n    ...\nexcept IpcCommandError as $e:\n    if not $nonfatal:\n        " + RAISE + "\n    $ret = ($e.code, $e.msg)", E))
     ctx.check("R2", call, ok, "nonfatal-returns-code", "a nonfatal failure becomes the reply (code, message); a fatal one is raised")
     gen_h = [h for h in hs if h.type is not None and A.unparse(h.type) == "Exception"]
-    ctx.check("R2", call, len(gen_h) == 1 and "raise IpcInternalError('internal failure') from e" in A.unparse(gen_h[0]), "bug-becomes-internal-error", "anything else is an internal error")
+    ctx.check("R2", call, len(gen_h) == 1 and M.has(call.node, "try:\n    ...\nexcept Exception as $e:\n    raise IpcInternalError($_) from $e"), "bug-becomes-internal-error", "anything else is an internal error")
     n_w = 0
     for c in P.all_classes():
         if c.module.name != MOD:
@@ -96,34 +118,45 @@ def run(ctx):
     nw = [x for x in A.calls(wm.node) if A.unparse(x.func) == "self.ebd.write"]
     ctx.check("R2", wm, len(nw) == 1 and not any(isinstance(p, (ast.For, ast.While)) for p in A.parents(nw[0])), "write-sends-once", "IpcCommand.write performs one write to the daemon")
     rg = P.func("pkgcore.ebuild.ebd", "run_generic_phase")
-    ipc_if = [n for n in A.body_walk(rg.node) if isinstance(n, ast.If) and A.unparse(n.test) == "isinstance(e, ebd_ipc.IpcError)"]
+    IS_IPC = M.pat("isinstance($e, ebd_ipc.IpcError)")
+    ipc_if = [(n, IS_IPC.matches(n.test)) for n in A.body_walk(rg.node) if isinstance(n, ast.If) and IS_IPC.matches(n.test)]
     ctx.require(len(ipc_if) == 1, "run_generic_phase: IpcError reply branch not found")
-    ws = [x for x in A.calls(ipc_if[0]) if A.unparse(x.func) == "ebd.write"]
-    ctx.check("R2", rg, len(ws) == 1 and A.unparse(ws[0].args[0]) == "e.ret" and A.stmt_of(ws[0]) is ipc_if[0].body[0], "fatal-reply-once", "a fatal IPC failure is answered exactly once, with the exception's pre-encoded line, before anything else",
+    ipc_if, exc = [ipc_if[0][0]], ipc_if[0][1]
+    proc = M.one(rg.node, "$ebd = request_ebuild_processor(...)")  # the daemon handle, by role
+    ctx.require(proc is not None, "run_generic_phase: the ebuild processor handle not found")
+    ebd_v = proc["ebd"]
+    ws = [x for x in A.calls(ipc_if[0]) if A.unparse(x.func) == f"{ebd_v}.write"]
+    # "before anything else": the write is unconditional in the branch and nothing in front of it touches the daemon or leaves the branch
+    w_st = A.stmt_of(ws[0]) if ws else None
+    first = w_st is not None and w_st in ipc_if[0].body and all(_inert(s_) and not any((dotted(x.func) or "").startswith(ebd_v + ".") for x in A.calls(s_)) for s_ in ipc_if[0].body[:ipc_if[0].body.index(w_st)])
+    ctx.check("R2", rg, len(ws) == 1 and M.pat("$ebd.write($e.ret)").matches(ws[0], {**exc.env, **proc.env}) is not None and first, "fatal-reply-once", "a fatal IPC failure is answered exactly once, with the exception's pre-encoded line, before anything else",
               "run_generic_phase no longer answers a fatal IPC failure with exactly one `e.ret` line", node=ipc_if[0])
-    ctx.check("R2", rg, any(isinstance(p, ast.ExceptHandler) for p in A.parents(ipc_if[0])), "fatal-reply-in-handler", "the answer is sent from the exception handler of the phase run")
+    ctx.check("R2", rg, any(isinstance(p, ast.ExceptHandler) and p.name == exc["e"] for p in A.parents(ipc_if[0])), "fatal-reply-in-handler", "the answer is sent from the exception handler of the phase run")
     ctx.floor("R2", 10)
 
     # ---- R3 one-line funnel --------------------------------------------------------------------------------------
     en = IC.methods["_encode_ret"]
     rets = A.returns(en.node)
     n_text = 0
+    # the status half of a (status, text) reply, by role: first element unpacked from the `ret` parameter
+    status = {m_["code"] for m_ in M.find(en.node, "$code, $text = ret")}
+    COLLAPSE = M.pat("' '.join(str($_).splitlines())")
     for r in rets:
         if isinstance(r.value, ast.JoinedStr):
             n_text += 1
             vars_ = [v.value for v in r.value.values if isinstance(v, ast.FormattedValue)]
             for v in vars_:
                 nm = A.unparse(v)
-                if nm == "code":
+                if nm in status:
                     continue
                 defs = [val for t_, val, st in A.assignments(en.node, nm) if st.lineno < r.lineno and any(p is q for p in A.parents(st) for q in A.parents(r) if isinstance(q, ast.If))]
-                collapsed = any("' '.join(str(" in A.unparse(d) and ".splitlines())" in A.unparse(d) for d in defs)
+                collapsed = any(COLLAPSE.search(d) for d in defs)
                 ctx.check("R3", en, collapsed, f"collapsed:{nm}", f"`{nm}` is collapsed to one line before it is formatted into the reply",
                           f"_encode_ret formats `{nm}` into the reply without collapsing its lines: IpcError.ret (sent verbatim by run_generic_phase) can span several lines, and the bash side reads one line per reply", node=r)
             ctx.check("R3", en, "\x07" in "".join(p.value for p in r.value.values if isinstance(p, ast.Constant)), f"bell-separated@{r.lineno - en.node.lineno}", "status and text are separated by the bell character the bash side splits on")
     ctx.check("R3", en, n_text == 2, f"text-arms:{n_text}", "both text-carrying arms inspected")
     ie = P.func(MOD, "IpcError.__init__")
-    ctx.check("R3", ie, "self.ret = IpcCommand._encode_ret((code, msg))" in A.unparse(ie.node), "error-ret-through-funnel", "IpcError.ret is produced by _encode_ret")
+    ctx.check("R3", ie, M.has(ie.node, "self.ret = IpcCommand._encode_ret((code, msg))"), "error-ret-through-funnel", "IpcError.ret is produced by _encode_ret")
     ra = fns.get("__ebd_read_array")
     ctx.check("R3", LIB + ":__ebd_read_array", ra is not None and "IFS=$'\\07' read -u ${PKGCORE_EBD_READ_FD} -a $1" in ra.body, "bash-reads-one-line", "the bash side reads ONE line and splits it on the bell character")
     ctx.floor("R3", 6)
@@ -142,7 +175,9 @@ def run(ctx):
             tgt = st.targets[0] if isinstance(st, ast.Assign) else None
             rv = A.unparse(tgt.elts[0]) if isinstance(tgt, ast.Tuple) else None
             ctx.require(rv, f"{mn}: status variable of the spawn not found")
-            checks = [n for n in A.body_walk(m.node) if isinstance(n, ast.If) and A.unparse(n.test) in (f"{rv} != 0", f"{rv}") and any(isinstance(x, ast.Raise) and "IpcCommandError" in A.unparse(x.exc) and f"code={rv}" in A.unparse(x.exc) for x in n.body)]
+            RV = {"rv": rv}
+            checks = [n for n in A.body_walk(m.node) if isinstance(n, ast.If) and (M.pat("$rv != 0").matches(n.test, RV) or M.pat("$rv").matches(n.test, RV))
+                      and any(isinstance(x, ast.Raise) and x.exc is not None and M.pat("IpcCommandError(..., code=$rv)").matches(x.exc, RV) for x in n.body)]
             sn = g.node_of(st)
             cn = {g.node_of(n) for n in checks}
             # no path from the spawn back to itself / to another spawn / to the generator's next yield that skips the check
@@ -198,8 +233,8 @@ def run(ctx):
     if ic is not None:
         made = {A.unparse(t_) for t_, v, _ in A.assignments(ic.node) if A.unparse(v).endswith("().send")}
         ctx.check("R6", ic, made == {"self.install", "self.install_dirs", "self.install_symlinks", "self.install_from_dirs"}, f"all-four-restarted:{len(made)}", "all four coroutines are restarted")
-        po = IW.methods["parse_install_options"]
-        ctx.check("R6", pa, init_calls and init_calls[0].lineno < [x for x in A.calls(pa.node) if A.unparse(x.func) == "self.parse_install_options"][0].lineno, "restart-before-fallback-choice", "the restart precedes the per-request choice of the external-install fallback")
+        choice = [x for x in A.calls(pa.node) if A.unparse(x.func) == "self.parse_install_options"]
+        ctx.check("R6", pa, bool(init_calls) and bool(choice) and init_calls[0].lineno < choice[0].lineno, "restart-before-fallback-choice", "the restart precedes the per-request choice of the external-install fallback")
     ctx.floor("R6", 2)
 
 
